@@ -17,6 +17,13 @@ that are wiped and re-initialised with the opposite mode) used from one machine 
 default), one per location, or none —, commands interleaved, one fresh client per command.  Every repository is compared with
 the model of its own history alone (`runView` with the views the real clients had; a stale view = broken tie hypothesis) and
 every ENCRYPTED repository's objects and names are classified by `Public` / `nameKeyed` and scanned for its secrets.
+Backends (the theorems `adversarial_backend_public` / `honest_backend_is_snapshot` / `plaintext_queue_leaks`): what reaches the
+backend during a snapshot is decided by the backend's answers.  `w_advsym` (tagged tie, one worker) and `w_adv` (real ciphers, 1–3
+workers) therefore take snapshots of REPETITIVE streams (one chunk far more often than the producer's read-ahead of
+`concurrent*10`) against `impl/c05_backend.AdvBackend`: `exists` lying (single calls / every recent write / everything from some
+call on), objects vanishing between two calls, a second REAL client running `clean` or `delete` in the middle of the snapshot.  The
+tie feeds the answers the backend really gave to the model op `snapshot_ev`; the direct oracle is evaluated on EVERY payload the
+backend received: scanned for every secret, and it must authenticate under the key its location prescribes (`check_payloads`).
 """
 import base64
 import json
@@ -25,6 +32,7 @@ import os
 import re
 
 from ..common import rng_for
+from ..impl import c05_backend as B
 from ..impl import runner as R
 from ..impl import symhist as H
 from ..impl import tagged as T
@@ -416,6 +424,98 @@ def w_long(arg):
     return res
 
 
+@H.guarded
+def w_advsym(arg):
+    """tagged tie against an adversarial backend: repetitive streams, one worker (the j-th `exists` is about the j-th chunk), the
+    backend's real answers and the removals that really happened go to the model as `snapshot_ev`"""
+    seed, idx, tier = arg
+    from .. import common
+    common.use_rebuilt_chunker()
+    r = rng_for(seed, 'C05-advsym', idx)
+    hist = B.gen_adv_history(r, encrypted=r.random() < 0.9)
+    obs = B.run_tagged_adv(hist, 'c05as_%d' % idx)
+    obs['idx'] = idx
+    obs['scenario'] = [{'kind': o['kind'], 'user': o.get('user'), 'plan': o.get('plan'), 'tree': o.get('desc'), 'foreign_user': o.get('foreign_user')}
+                       for o in hist['ops']]
+    obs['params'] = list(hist['params'])
+    return obs
+
+
+@H.guarded
+def w_adv(arg):
+    """real ciphers against an adversarial backend: 1–3 workers, repetitive trees, every attack mode; EVERY payload the backend
+    received is scanned for every secret and must authenticate under the key its location prescribes"""
+    seed, idx, tier = arg
+    from .. import common
+    common.use_rebuilt_chunker()
+    r = rng_for(seed, 'C05-adv', idx)
+    cipher = CIPHERS[idx % len(CIPHERS)]
+    hashing = HASHES[(idx // len(CIPHERS)) % len(HASHES)]
+    mn, mx = r.choice(B.ADV_CHUNKING)
+    concurrent = r.choice([1, 1, 2, 3])
+    settings = R.settings_for(True, cipher, hashing, {'name': 'gclmulchunker', 'min_length': mn, 'max_length': mx})
+    res = {'idx': idx, 'violations': [], 'dist': []}
+    with R.Scratch('c05a_%d' % idx) as sc:
+        pws = [b'correct horse %s' % r.randbytes(4).hex().encode()]
+        w = B.AdvWorld(sc, settings, password=pws[0], concurrent=concurrent)
+        for _ in range(r.choice([0, 1, 1, 2])):
+            pws.append(b'battery staple %s' % r.randbytes(4).hex().encode())
+            w.add_key(r.randrange(len(w.keys)), r.random() < 0.8, pws[-1])
+        secrets, snaps, scenario = [], [], []
+        shared_block = r.randbytes(mx) if r.random() < 0.6 else None
+
+        def meta(tree):
+            note = 'note-%016x' % r.getrandbits(64) if r.random() < 0.8 else None
+            return note, {nm: 1_700_000_000_000_000_000 + r.randrange(10 ** 17) for nm in tree}
+
+        if r.random() < 0.5:
+            # the repeated block is ALREADY stored by an earlier, undisturbed snapshot (which a second client may delete later)
+            tree = {'base-%08x' % r.getrandbits(32): (shared_block or bytes(mx)) * r.choice([1, 2]) + r.randbytes(r.choice([0, 7])),
+                    'other-%08x' % r.getrandbits(32): r.randbytes(r.choice([9, mx + 1]))}
+            note, mt = meta(tree)
+            s = w.snapshot(r.randrange(len(w.keys)), tree, note=note, mtimes=mt)
+            snaps.append(s)
+            secrets += snapshot_secrets(s, tree, note, mt)
+            scenario.append({'kind': 'snapshot', 'user': s['user']})
+        stats = []
+        for _ in range(r.choice([1, 1, 2])):
+            tree, desc = B.gen_repetitive_tree(r, mn, mx, concurrent, shared_block)
+            plan = B.gen_plan(r, desc['est_chunks'], can_delete=bool(snaps))
+            note, mt = meta(tree)
+            ui, fu = r.randrange(len(w.keys)), r.randrange(len(w.keys))
+            victim = r.choice(snaps)['name'] if snaps else None
+            scenario.append({'kind': 'snapshot_adv', 'user': ui, 'foreign_user': fu, 'plan': plan, 'tree': desc})
+            s = w.snapshot_adv(ui, tree, plan, note=note, mtimes=mt, foreign_user=fu, victim=victim)
+            snaps.append(s)
+            secrets += snapshot_secrets(s, tree, note, mt)
+            stats.append(B.attack_stats(s, concurrent))
+        secrets.append(('path', str(w.src).encode(), False))
+        secrets += key_secrets(w, pws)
+        secrets = list(dict.fromkeys(secrets))       # a repetitive stream yields the same chunk (and chunk key) hundreds of times
+        extra = {'scenario': scenario, 'settings': settings, 'concurrent': concurrent}
+        nsearch, nhay = scan(observed_of(w), secrets, res['violations'], extra)
+        npay = B.check_payloads(w, snaps, res['violations'], extra)
+        check_config(json.loads(w.backend.objects['config']), res['violations'])
+        late = sum(t['absent_answers_beyond_readahead'] for t in stats)
+        res['summary'] = {'adversarial_backend': True, 'cipher': (cipher or {}).get('name'), 'key_bits': (cipher or {}).get('key_bits'), 'hash': hashing,
+                          'params': [mn, mx], 'concurrent': concurrent, 'keys': len(w.keys), 'modes': [t['plan']['mode'] for t in scenario if 'plan' in t],
+                          'trees': [t['tree']['kind'] for t in scenario if 'tree' in t], 'max_multiplicity': max(t['max_multiplicity'] for t in stats),
+                          'absent_answers_beyond_readahead': late, 'payloads': npay}
+        # the class: a chunk the client saw stored more than a read-ahead ago is reported absent (its queued object goes to the backend)
+        res['nontrivial'] = late >= 1
+        res['dist'] = ['adv:concurrent:%d' % concurrent, 'adv:with-repeat-reported-absent-beyond-readahead:%d' % int(late >= 1)] + \
+                      ['adv:mode:' + t['plan']['mode'] for t in scenario if 'plan' in t] + ['adv:tree:' + t['tree']['kind'] for t in scenario if 'tree' in t]
+        res['counts'] = {'adv:searches': nsearch, 'adv:observed-bytes': nhay, 'adv:payloads-authenticated': npay, 'adv:snapshots-attacked': len(stats),
+                         'adv:chunks': sum(t['chunks'] for t in stats), 'adv:repeats-beyond-readahead': sum(t['repeats_beyond_readahead'] for t in stats),
+                         'adv:absent-answers-for-chunk-seen-before': sum(t['absent_answers_for_chunk_seen_before'] for t in stats),
+                         'adv:absent-answers-beyond-readahead': late, 'adv:actions-that-changed-an-answer': sum(t['fired'] for t in stats),
+                         'adv:foreign-client-failed': sum(t['foreign_failed'] for t in stats)}
+        for t in stats:
+            for a, n in t['fired_by'].items():
+                res['counts']['adv:answer-changed-by:' + a] = res['counts'].get('adv:answer-changed-by:' + a, 0) + n
+    return res
+
+
 def account_sym(out, drv, obs, rp, label, count_prefix='sym'):
     """one symbolic history (a whole case, or one repository of a client-state world): tie + verdicts of the model's predicates"""
     st = obs['stats']
@@ -450,19 +550,26 @@ def run(out, drv, info):
     quick = out.tier == 'quick'
     n_sym, n_scan = (300, 360) if quick else (1500, 1800)
     n_world, n_client = (160, 120) if quick else (900, 700)
+    n_advsym, n_adv = (128, 160) if quick else (800, 1200)
     out.rule = ('cases: (a) symbolic history = encrypted settings × 5–9 ops of add-key (shared / independent) / snapshot / delete / clean by up to 4 keys on the real '
                 'Repository with tagged adapters, parsed and compared with sym.run + classified by Public/nameKeyed; (b) real-cipher scan = every (cipher, key size) × '
                 'every hash × history with 1–3 keys, 1–3 snapshots, delete/clean; (c) client-state world = 2–3 repositories with different encryption modes (+ locations '
                 're-initialised with the opposite mode) behind one machine: cache directory shared by all / per location / none, 6–10 interleaved commands, a fresh client '
                 'per command — tagged (each repository vs runView of its own history, fed with the views of the real clients) and with the real ciphers (every encrypted '
-                'repository scanned).  non-trivial: ≥ 1 snapshot with a note, ≥ 2 files, ≥ 2 keys; for (c): an ENCRYPTED repository takes a snapshot after a client of a '
-                'repository with the other encryption mode was unlocked through the same cache directory; distinct = hash of the case summary')
+                'repository scanned); (d) adversarial backend = snapshots of repetitive trees (sparse / one record repeated / disk image / periodic; one chunk '
+                'occurs read-ahead + 2 … 4×read-ahead times, read-ahead = concurrent*10 + concurrent + 1) against a backend whose `exists` lies (single calls / recent '
+                'writes / everything from a call on), whose objects vanish between calls, or on which a second real client runs clean / delete mid-snapshot — tagged '
+                '(1 worker; the real answers drive the model op snapshot_ev) and with the real ciphers (1–3 workers; every payload scanned and authenticated).  non-trivial: ≥ 1 snapshot with a note, ≥ 2 files, ≥ 2 keys; for (c): an ENCRYPTED repository takes a snapshot after a client of a '
+                'repository with the other encryption mode was unlocked through the same cache directory; for (d): a chunk the client saw stored more than a read-ahead '
+                'ago is reported absent (so its queued object is handed to the backend); distinct = hash of the case summary')
     out.assumptions = ['ideal cryptography: hash/MAC/KDF/AEAD are free constructors of the term algebra (no collision, no forgery, ciphertext reveals nothing but its nonce)',
                        'os.urandom yields fresh values (supply counter in the model, counter-based unique bytes in the tagged runs)',
                        'lengths, timing and access patterns are not hidden and the property does not ask for it; debug-level log output is not "at rest"',
                        'the scan is a search for a concrete leak (supporting role); secrecy itself is the theorem about `written`',
                        'client state = the cache directory handed to `Repository` (the only local state replicat keeps between commands); it is produced by real commands of '
-                       'real clients only (no hand-made cache entries); the local cache itself is not "the repository at rest"']
+                       'real clients only (no hand-made cache entries); the local cache itself is not "the repository at rest"',
+                       'adversarial backend: the backend may answer `exists` arbitrarily and lose / have removed any object between two calls, but it stores what it is '
+                       'handed unmodified and is a passive observer otherwise (tampering is C04); the second client is a real replicat client of the same repository']
     ctx = mp.get_context('fork')
     with ctx.Pool(min(16, os.cpu_count() or 4)) as pool:
         a = pool.map_async(w_symbolic, [(out.seed, i, out.tier) for i in range(n_sym)], chunksize=2)
@@ -470,8 +577,11 @@ def run(out, drv, info):
         b = pool.map_async(w_scan, [(out.seed, i, out.tier) for i in range(n_scan)], chunksize=2)
         e = pool.map_async(w_client, [(out.seed, i, out.tier) for i in range(n_client)], chunksize=2)
         c = pool.map_async(w_long, [(out.seed, i, out.tier) for i in range(10 if quick else 60)], chunksize=1)
+        f = pool.map_async(w_advsym, [(out.seed, i, out.tier) for i in range(n_advsym)], chunksize=2)
+        g = pool.map_async(w_adv, [(out.seed, i, out.tier) for i in range(n_adv)], chunksize=2)
         sym, worlds, scans = a.get(), d.get(), b.get()
-        scans = scans + e.get() + c.get()
+        scans = scans + e.get() + c.get() + g.get()
+        advsym = f.get()
     for obs in sym:
         if obs.get('crashed'):
             out.case({'crashed': obs['idx']}, False)
@@ -514,6 +624,35 @@ def run(out, drv, info):
                 # the hypothesis of `client_history_public` fails on the real code (tie); a leak, if any, is reported below from what was written
                 out.disagreement(f'{label}: {stale} of {len(obs["views"])} clients concluded encrypted={not obs["encrypted"]} (views must be the repository\'s own flag)', rp)
             account_sym(out, drv, obs, rp, label, 'world')
+    for obs in advsym:
+        if obs.get('crashed'):
+            out.case({'crashed': obs['idx']}, False)
+            out.disagreement(f'adversarial-backend history #{obs["idx"]} could not be driven / interpreted: {obs["what"]}', {'kind': 'crash', 'idx': obs['idx'], 'trace': obs['trace']})
+            continue
+        st = obs['stats']
+        late = st.get('adv_absent_answers_beyond_readahead', 0)
+        out.case({'advsym': st, 'encrypted': obs['encrypted']}, obs['encrypted'] and late >= 1)
+        out.count('advsym:' + ('enc' if obs['encrypted'] else 'plain'))
+        for m in st.get('adv_modes', []):
+            out.count('advsym:mode:' + m)
+        out.count('advsym:snapshots-attacked', st.get('adv_snapshots', 0))
+        out.count('advsym:chunks', st.get('adv_chunks', 0))
+        out.count('advsym:uploads', st['puts'])
+        out.count('advsym:encryptions', st['encryptions'])
+        out.count('advsym:repeats-beyond-readahead', st.get('adv_repeats_beyond_readahead', 0))
+        out.count('advsym:absent-answers-for-chunk-seen-before', st.get('adv_absent_answers_for_chunk_seen_before', 0))
+        out.count('advsym:absent-answers-beyond-readahead', late)
+        out.count('advsym:with-repeat-reported-absent-beyond-readahead', int(late >= 1))
+        out.count('advsym:actions-that-changed-an-answer', st.get('adv_fired', 0))
+        out.count('advsym:foreign-client-failed', st.get('adv_foreign_failed', 0))
+        for a, n in st.get('adv_fired_by', {}).items():
+            out.count('advsym:answer-changed-by:' + a, n)
+        rp = {'kind': 'advsym', 'seed': out.seed, 'idx': obs['idx'], 'tier': out.tier, 'chunking': obs['params'], 'scenario': obs['scenario']}
+        label = f'adversarial-backend history #{obs["idx"]}'
+        stale = sum(1 for v in obs['views'] if v != obs['encrypted'])
+        if stale:
+            out.disagreement(f'{label}: {stale} of {len(obs["views"])} clients concluded encrypted={not obs["encrypted"]}', rp)
+        account_sym(out, drv, obs, rp, label, 'advsym')
     for res in scans:
         if res.get('crashed'):
             out.case({'crashed': res['idx']}, False)
@@ -524,7 +663,7 @@ def run(out, drv, info):
             out.count(d)
         for k, v in res.get('counts', {}).items():
             out.count(k, v)
-        kind = 'long' if res['summary'].get('long_lived') else 'client' if res['summary'].get('client_world') else 'scan'
+        kind = 'long' if res['summary'].get('long_lived') else 'client' if res['summary'].get('client_world') else 'adv' if res['summary'].get('adversarial_backend') else 'scan'
         for what in res.get('problems', [])[:3]:
             out.disagreement(f'client-state world (real ciphers) #{res["idx"]}: {what}', {'kind': kind, 'seed': out.seed, 'idx': res['idx'], 'tier': out.tier})
         for sig, what, extra in res['violations']:
@@ -543,8 +682,14 @@ def replay(path, drv):
     rp = d.get('replay', d)
     if 'kind' not in rp and d.get('correspondence_disagreements'):
         rp = d['correspondence_disagreements'][0]['replay']       # a broken tie without a failing input: re-run its first case
-    if rp.get('kind') == 'sym':
-        obs = _in_child(w_symbolic, (rp['seed'], rp['idx'], rp.get('tier', 'quick')))
+    if rp.get('kind') in ('sym', 'advsym'):
+        obs = _in_child(w_symbolic if rp['kind'] == 'sym' else w_advsym, (rp['seed'], rp['idx'], rp.get('tier', 'quick')))
+        if obs.get('crashed'):
+            print('crashed', obs['what'], obs['trace'])
+            return 1
+        if rp['kind'] == 'advsym':
+            for sc in obs['scenario']:
+                print('scenario', sc)
         bad, verdict = H.judge(obs, drv) if drv is not None else ([], {})
         print('stats', obs['stats'], 'problems', obs['problems'][:3], 'disagreements', bad[:5])
         print('verdict', {k: (v[:5] if isinstance(v, list) else v) for k, v in verdict.items()})
@@ -567,8 +712,8 @@ def replay(path, drv):
             if bad or obs['problems'] or leak or stale:
                 rc = 1
         return rc
-    if rp.get('kind') in ('scan', 'long', 'client'):
-        res = _in_child({'long': w_long, 'client': w_client, 'scan': w_scan}[rp['kind']], (rp['seed'], rp['idx'], rp.get('tier', 'quick')))
+    if rp.get('kind') in ('scan', 'long', 'client', 'adv'):
+        res = _in_child({'long': w_long, 'client': w_client, 'scan': w_scan, 'adv': w_adv}[rp['kind']], (rp['seed'], rp['idx'], rp.get('tier', 'quick')))
         if res.get('crashed'):
             print('crashed', res['what'], res['trace'])
             return 1
